@@ -39,11 +39,14 @@ class Contract:
         self.let = kw.pop("let", {})                # name -> expr (pre-state)
         self.cover = kw.pop("cover", [])            # must-be-reachable
         self.variant = kw.pop("variant", None)
+        self.variant_name = kw.pop("variant_name", None)
         self.extra = kw
         self.cls = func.split(".")[0] if "." in func else None
 
     @property
     def key(self):
+        if self.variant_name:
+            return (self.file, f"{self.func}#{self.variant_name}")
         return (self.file, self.func)
 
     def __repr__(self):
@@ -64,7 +67,8 @@ def contract(file, func, **kw):
     if c.key in CONTRACTS:
         raise ValueError(f"duplicate contract {c.key}")
     CONTRACTS[c.key] = c
-    BY_QUAL[func] = c
+    if not c.variant_name:
+        BY_QUAL[func] = c
     return c
 
 
